@@ -278,3 +278,7 @@ Fixpoint has_f32 (q : query) : bool :=
   | QDisMax qs => existsb has_f32 qs
   | QBool _ cs => existsb (fun c => has_f32 (snd c)) cs
   end.
+
+(* the class F31 only exists under the old shape of the shortcut (chk = false) *)
+Definition h31 (chk : bool) (q : query) : bool := negb chk && has_f31 q.
+Definition h31_below_root (chk sc : bool) (q : query) : bool := negb chk && has_f31_below_root sc q.
